@@ -1,19 +1,20 @@
 """Property -> rules wiring.  Each function returns kwargs for Ctx.finish()."""
-from . import control
+from . import control, history, descent, warm, degenerate, feasible
 
 TB = ["CPython ast", "role seeds: positional parameters of BaseSolver._solve and the "
       "fixed slot-method names of the datafit/penalty interface"]
+EX01 = control.C01_SCOPE_EXEMPT
 
 
 def c01(A, ctx, tier):
-    scope = dict(exempt=control.C01_SCOPE_EXEMPT)
+    scope = dict(exempt=EX01)
     control.r_zero(A, ctx, dict(scope, floor=6))
     control.r_cert(A, ctx, dict(scope, floor=20))
     control.r_fresh(A, ctx, dict(scope, floor=12))
     control.r_retstop(A, ctx, dict(scope, floor=6))
     control.r_anderson(A, ctx, scope)
     control.r_lbfgs(A, ctx, scope)
-    for k, v in control.C01_SCOPE_EXEMPT.items():
+    for k, v in EX01.items():
         ctx.note(f"out of scope {k}: {v}")
     ctx.assume("a score <= tol implies eps-stationarity numerically (not decided)")
     ctx.assume("the formulas inside subdiff_distance / gradients are decided under C06/C08")
@@ -24,6 +25,68 @@ def c01(A, ctx, tier):
                 trusted_base=TB)
 
 
+def c03(A, ctx, tier):
+    descent.r_guard(A, ctx, dict(exempt={"FISTA", "PDCD_WS"}, floor=4))
+    descent.r_step(A, ctx, dict(floor=12))
+    descent.r_ls(A, ctx, dict(floor=12))
+    ctx.note("backtracking exhaustion (`else: pass  # TODO` after 20 halvings) keeps the last "
+             "trial step: informational, no rule can say what the right fallback is")
+    ctx.assume("prox operators are exact and L_k bounds the curvature (C07/C09)")
+    return dict(explanation="descent mechanisms: acceptance of extrapolated points is "
+                "dominated by a strict objective decrease of sibling objective terms; "
+                "every prox call is the majorisation step 1/L_k at the coordinate it "
+                "updates; the three line searches follow one template", trusted_base=TB)
+
+
+def c04(A, ctx, tier):
+    feasible.r_inf(A, ctx, dict(floor=8))
+    feasible.r_pos(A, ctx, dict(floor=10))
+    feasible.r_write(A, ctx, dict(floor=15))
+    ctx.assume("finiteness under overflow/cancellation is not decided")
+    return dict(explanation="feasibility at every stopping point: only prox outputs, "
+                "guarded extrapolations, line-search combinations and the intercept are "
+                "ever written into w; constraint-bearing penalties expose the constraint "
+                "in value() so the acceptance guard can reject infeasible candidates; the "
+                "positive flag reaches every prox and score", trusted_base=TB)
+
+
+def c05(A, ctx, tier):
+    warm.r_none_ifexp(A, ctx, dict(floor=10))
+    warm.r_pair(A, ctx, dict(floor=12))
+    warm.r_path(A, ctx, dict(floor=8))
+    warm.r_warmfit(A, ctx, dict(floor=5))
+    warm.r_cache(A, ctx, {})
+    ctx.assume("a consistent (w_init, Xw_init) pair is the caller's contract")
+    return dict(explanation="warm starts and paths: optional-argument idiom, pairing of "
+                "every coefficient store with its model-fit delta, path discipline "
+                "(alpha set, copy of previous column, model-fit template), _glm_fit "
+                "warm-start template, no cached solver state", trusted_base=TB)
+
+
+def c17(A, ctx, tier):
+    history.r_hist(A, ctx, dict(exempt={"LBFGS"}, floor=12))
+    control.r_retstop(A, ctx, dict(floor=6))
+    history.r_niter(A, ctx, dict(floor=3))
+    control.r_zero(A, ctx, dict(exempt={}, floor=7), rule="R-ZERO-BOUND", want="bound")
+    return dict(explanation="diagnostics: one history entry per completed outer "
+                "iteration, entry = objective of the current iterate (bound, fresh, "
+                "intercept unpenalised), returned stop value is the tested one, n_iter_ = "
+                "len(history)", trusted_base=TB)
+
+
+def c19(A, ctx, tier):
+    def where(A_):
+        return [f for f in degenerate.reachable_functions(A_, degenerate.solver_roots(A_))
+                if not (f.cls is not None and f.cls in A_.prog.penalties)
+                and f.module.name != "skglm.utils.prox_funcs"]
+    degenerate.r_div(A, ctx, dict(floor=15), where=where)
+    degenerate.r_loop(A, ctx, dict(floor=100))
+    ctx.assume("finiteness under overflow and rank-deficient non-zero designs are not decided")
+    return dict(explanation="degenerate data: every division by a data-derived "
+                "magnitude in solver code is dominated by a non-zero fact; every loop is "
+                "bounded", trusted_base=TB)
+
+
 PROPS = {
-    "C01": c01,
+    "C01": c01, "C03": c03, "C04": c04, "C05": c05, "C17": c17, "C19": c19,
 }
